@@ -7,7 +7,9 @@
 EXTENDS Integers, Sequences, TLC, Json
 CONSTANTS Side, Only     \* Only: "all" | "burst" (just the scripts that have frames queued when the peer's close is read)
 
-Faults == {"eof", "reset", "partial", "close", "closeErr", "end", "endErr", "detachS", "detachSErr", "detachR", "silentEof", "detachSnc", "detachRnc"}   \* ..nc: detach without closing
+Faults == {"eof", "reset", "partial", "close", "closeErr", "end", "endErr", "detachS", "detachSErr", "detachR", "silentEof", "detachSnc", "detachRnc",
+           \* ..A: the peer's error condition lies in the reserved amqp: namespace but is not one this build knows (a newer or vendor-extended peer)
+           "closeErrA", "endErrA", "detachSErrA"}   \* ..nc: detach without closing
 \* cut: number of completed steps before the failure; pend: what is pending when it strikes
 Cuts == 0..6
 Pends == {"step", "none", "send", "recv", "close", "end", "detach", "burst1", "burst2", "burst3", "burst5"}   \* close / end / detach: the local teardown call crosses the failure on the wire
@@ -15,7 +17,8 @@ Bursts == {"burst1", "burst2", "burst3", "burst5"}
 VARIABLE z
 Init == z = [k |-> "start"]
 Applicable(c, f, p) ==
-  /\ (f \in {"end", "endErr"} => c >= 2) /\ (f \in {"detachS", "detachSErr", "detachSnc"} => c >= 3) /\ (f \in {"detachR", "detachRnc"} => c >= 4)
+  /\ (f \in {"end", "endErr", "endErrA"} => c >= 2) /\ (f \in {"detachS", "detachSErr", "detachSnc", "detachSErrA"} => c >= 3)
+  /\ (f \in {"closeErrA", "endErrA", "detachSErrA"} => p \in {"none", "send", "recv"} /\ c \in {4, 6}) /\ (f \in {"detachR", "detachRnc"} => c >= 4)
   /\ (p = "send" => c >= 3) /\ (p = "recv" => c >= 4) /\ (p = "step" => c <= 5)
   /\ (p = "close" => c >= 1) /\ (p = "end" => c >= 2) /\ (p = "detach" => c >= 3)
   \* (answering a closing detach with a non-closing one is itself a violation by the peer: not a failure to propagate)
@@ -60,6 +63,9 @@ Fault(f) == CASE f = "eof" -> <<[e |-> "PEof", keep_read |-> TRUE]>>
               [] f = "partial" -> <<[e |-> "PRaw", tag |-> "partial", b |-> <<0, 0, 0, 40, 2, 0, 0, 3, 0, 83>>], [e |-> "PEof", keep_read |-> TRUE]>>
               [] f = "close" -> <<PF("close", 0, [err |-> ""])>>
               [] f = "closeErr" -> <<PF("close", 0, [err |-> "x:forced"])>>
+              [] f = "closeErrA" -> <<PF("close", 0, [err |-> "amqp:connection:maintenance"])>>
+              [] f = "endErrA" -> <<PF("end", 3, [err |-> "amqp:session:maintenance"])>>
+              [] f = "detachSErrA" -> <<PF("detach", 3, [h |-> 5, closed |-> TRUE, err |-> "amqp:link:maintenance"])>>
               [] f = "end" -> <<PF("end", 3, [err |-> ""])>>
               [] f = "endErr" -> <<PF("end", 3, [err |-> "x:ended"])>>
               [] f = "detachS" -> <<PF("detach", 3, [h |-> 5, closed |-> TRUE, err |-> ""])>>
